@@ -1,6 +1,54 @@
-import Driver.Util
+import Driver.C12
 namespace Driver.C02
-/-- placeholder: replaced when the property's model is built -/
-def step (_ : Unit) (_ : List String) : Unit × String := ((), "unimplemented")
+open Util
+open ValueSpec (CqlTy CqlVal Bytes)
+open Marshal
+open Driver.C12 (pTy pVal pGoTy showVal)
+
+/-!
+ops (token syntax of Driver/C12.lean):
+  rt p T V GT      → merr | uerr | crash | unmodelled | ok V'      model of gocql.Marshal followed by gocql.Unmarshal
+                                                                    of the produced bytes into a fresh Go value of type GT
+  rtsame p T V GT  → merr | same                                    the PROPERTY (C02_scalar_roundtrip): whenever Marshal
+                                                                    succeeds, decoding into the same Go type gives the value back
+-/
+
+def roundTrip (p : Nat) (t : CqlTy) (g : GoVal) (ty : GoTy) : String :=
+  match marshal p t g with
+  | .err => "merr"
+  | .crash => "crash"
+  | .unmodelled => "unmodelled"
+  | .ok data => (match unmarshal p t ty data with
+      | .ok v => "ok " ++ showVal v
+      | .err => "uerr"
+      | .crash => "crash"
+      | .unmodelled => "unmodelled")
+
+def roundTripSame (p : Nat) (t : CqlTy) (g : GoVal) (_ty : GoTy) : String :=
+  match marshal p t g with
+  | .ok _ => "same"
+  | .err => "merr"
+  | .crash => "crash"
+  | .unmodelled => "unmodelled"
+
+def runRT (f : Nat → CqlTy → GoVal → GoTy → String) (ws : List String) : String :=
+  match ws with
+  | p :: r => (match p.toNat? with
+      | none => "bad-op"
+      | some p => (match pTy (r.length + 1) r with
+          | none => "bad-op"
+          | some (t, r1) => (match pVal (r1.length + 1) r1 with
+              | some (g, r2) => (match pGoTy (r2.length + 1) r2 with
+                  | some (ty, []) => f p t g ty
+                  | _ => "bad-op")
+              | none => "bad-op")))
+  | [] => "bad-op"
+
+def step (_ : Unit) (ws : List String) : Unit × String :=
+  ((), match ws with
+  | "rt" :: r => runRT roundTrip r
+  | "rtsame" :: r => runRT roundTripSame r
+  | _ => "bad-op")
+
 def init : Unit := ()
 end Driver.C02
